@@ -41,6 +41,8 @@ def shift_cursors(v, d):
         if pos[0] == "rel":
             pos = ("rel", pos[1] + d)
         return Opq("lcur", (dr, pos, lo, hi, ix, started))
+    if isinstance(v, Opq) and v.kind in ADAPTORS:
+        return Opq(v.kind, tuple(shift_cursors(x, d) for x in v.data))
     if isinstance(v, Adt):
         return Adt(v.ty, v.variant, tuple(shift_cursors(x, d) for x in v.fields))
     if isinstance(v, Tup):
@@ -48,6 +50,20 @@ def shift_cursors(v, d):
     if isinstance(v, Ref) and v.loc[0] in ("val", "valp"):
         return Ref((v.loc[0], shift_cursors(v.loc[1], d)) + tuple(v.loc[2:]))
     return v
+
+
+ADAPTORS = ("map", "skip", "rev", "enumerate")
+
+
+def inner_cursor(v):
+    """The label cursor inside an adaptor chain (map(f) over a cursor ...), or None."""
+    while (isinstance(v, Opq) and v.kind in ADAPTORS and v.data) or (isinstance(v, Adt) and v.ty == "&snapshot"):
+        v = v.data[0] if isinstance(v, Opq) else v.fields[0]
+    return v if isinstance(v, Opq) and v.kind == "lcur" else None
+
+
+def _utf8_len(cp):
+    return 1 if cp < 0x80 else 2 if cp < 0x800 else 3 if cp < 0x10000 else 4
 
 
 class InductionFailure(AnalysisError):
@@ -220,6 +236,59 @@ class LabelWorld(OracleWorld):
         p = ("rel", mid.name[1])
         return Tup((Ref(("val", Str(("label-sub", sub[0], p)))), Ref(("val", Str(("label-sub", p, sub[1]))))))
 
+    def _bytepos(self, v):
+        """rel position k for the byte position of the character offset+k (as read with char_indices)."""
+        if isinstance(v, Sym) and isinstance(v.name, tuple) and len(v.name) == 2 and v.name[0] == "bytepos":
+            return ("rel", v.name[1])
+        return None
+
+    def str_slice(self, m, st, sv, rng, callee):
+        """&label[..p] / &label[p..] / &label[p..q] with p, q byte positions of characters that were read."""
+        sub = self.substr(sv)
+        if sub is None:
+            raise AnalysisError("slice of %r, which is not (a part of) the label" % (sv,))
+        r = rng if isinstance(rng, Adt) else deref_all(m, st, rng)
+        kind = r.ty.rsplit("::", 1)[1]
+        lo, hi = sub
+        names = {"RangeTo": (None, 0), "RangeFrom": (0, None), "Range": (0, 1), "RangeFull": (None, None)}
+        if kind not in names:
+            raise AnalysisError("label sliced with %s" % r.ty)
+        li, hi_i = names[kind]
+        for which, fi in (("lo", li), ("hi", hi_i)):
+            if fi is None:
+                continue
+            b = r.fields[fi]
+            if isinstance(b, I) and b.v == 0 and which == "lo":
+                continue
+            p_ = self._bytepos(b)
+            if p_ is None:
+                raise AnalysisError("label slice bound %r: not the byte position of a character that was read" % (b,))
+            if which == "lo":
+                lo = p_
+            else:
+                hi = p_
+        return Str(("label-sub", lo, hi))
+
+    def binop_hook(self, st, op, a, b):
+        # bytepos(k) + len_utf8(label[k])  =  bytepos(k+1)
+        base = op.replace("WithOverflow", "").replace("Unchecked", "")
+        if base == "Add":
+            for x, y in ((a, b), (b, a)):
+                px = self._bytepos(x)
+                if px is None:
+                    continue
+                k = px[1]
+                okk = False
+                if isinstance(y, Sym) and y.name == ("utf8len", k):
+                    okk = True
+                elif isinstance(y, I):
+                    r = rng_get(st, Sym(("at", k), "char"))
+                    okk = _utf8_len(r[0][0]) == _utf8_len(r[-1][1]) == y.v
+                if okk:
+                    res = Sym(("bytepos", k + 1), x.ty)
+                    return Tup((res, ip.boolean(False))) if op.endswith("WithOverflow") else res
+        return OracleWorld.binop_hook(self, st, op, a, b) if hasattr(OracleWorld, "binop_hook") else None
+
     def present(self, st, k):
         f = st.facts.get(("at", k))
         if f is not None:
@@ -268,7 +337,16 @@ class LabelWorld(OracleWorld):
         # liveness at the loop head itself
         live_in, _ = au._live_sets(fr.body)
         live = set(live_in[target])
-        cur = {l: v for l, v in fr.locals.items() if l in live}
+        def snap(v, depth=0):
+            # a reference to mutable state (an iterator borrowed by an adaptor's loop): the state it points at
+            if isinstance(v, Ref) and v.loc[0] not in ("static", "val", "valp") and depth < 3:
+                try:
+                    return Adt("&snapshot", 0, (snap(m.load(st, v.loc), depth + 1),))
+                except AnalysisError:
+                    return v
+            return v
+
+        cur = {l: snap(v) for l, v in fr.locals.items() if l in live}
         prev = loops.get(key)
         if prev is None:
             loops[key] = cur
@@ -293,10 +371,20 @@ class LabelWorld(OracleWorld):
                     break
         if d is None:
             for l in changed:
-                a, b_ = prev.get(l), cur[l]
+                a, b_ = inner_cursor(prev.get(l)), inner_cursor(cur[l])
                 if isinstance(a, Opq) and isinstance(b_, Opq) and a.kind == b_.kind == "lcur" and a.data[1][0] == b_.data[1][0] == "rel":
                     d = b_.data[1][1] - a.data[1][1]
                     break
+        if d is None and any(inner_cursor(cur[l]) is not None and inner_cursor(prev.get(l)) is None for l in changed):
+            # the first round turned an iterator expression into a cursor: compare from this arrival on
+            n = loops.get(("n",) + key, 0) + 1
+            if n <= 3:
+                loops[("n",) + key] = n
+                loops[key] = cur
+                loops[("facts",) + key] = dict(st.facts)
+                st.ext["loops"] = loops
+                st.consulted = set()
+                return None
         if d is None:
             raise InductionFailure("loop at bb%d of %s: the state changes from one round to the next but no position steps" % (target, fr.body.id))
         for l in changed:
